@@ -98,6 +98,8 @@ UNIT = {
                 'r is Ok ==> final(system).installed(vacant.spec_key()->Signal_0) == Disposition::Ignore',
                 'r is Ok ==> vacant.final_value() is Some && inv(vacant.final_value(), final(system).installed(vacant.spec_key()->Signal_0))',
                 'r is Ok ==> vacant.final_value()->0.cur().action == Action::Ignore && vacant.final_value()->0.cur().pending == false',
+                # a fresh record: no internal disposition, no parent state
+                'r is Ok ==> vacant.final_value()->0.internal() == Disposition::Default && vacant.final_value()->0.parent() is None',
                 # already ignored on entry => recorded as inherited (cannot be changed later by a non-interactive shell)
                 'r is Ok ==> (vacant.final_value()->0.cur().origin == Origin::Inherited <==> old(system).installed(vacant.spec_key()->Signal_0) == Disposition::Ignore)',
                 'others_unchanged(*old(system), *final(system), vacant.spec_key()->Signal_0)',
